@@ -3,7 +3,7 @@
 EXTENDS MCRefHeap, Json
 VARIABLE hist
 Rec(c) == [op |-> c.op, a |-> c.a, b |-> c.b, k |-> c.k, i |-> c.i, cnt |-> c.cnt, kind |-> c.kind, tok |-> c.tok,
-           deflt |-> c.deflt, path |-> c.path]
+           deflt |-> c.deflt, path |-> c.path, from |-> c.from]
 GInit == Init /\ hist = <<>>
 GNext == Next /\ hist' = Append(hist, Rec(last'))
 GSpec == GInit /\ [][GNext]_<<vars, hist>>
@@ -12,6 +12,6 @@ CONSTANT GStride
 \* (a deterministic function of the transition, so that the sample does not depend on worker scheduling)
 RECURSIVE SumRc(_)
 SumRc(S) == IF S = {} THEN 0 ELSE LET x == CHOOSE y \in S : TRUE IN h'.n[x].rc * x + Len(h'.n[x].kids) * 5 + SumRc(S \ {x})
-EdgeHash == Len(hist') * 7 + last'.a * 13 + last'.b * 17 + last'.k * 19 + last'.i * 23 + Len(last'.path) * 31 + SumRc(Live(h'))
+EdgeHash == Len(hist') * 7 + last'.a * 13 + last'.b * 17 + last'.k * 19 + last'.i * 23 + Len(last'.path) * 31 + Len(last'.from) * 37 + SumRc(Live(h'))
 GExport == (EdgeHash % GStride = 0) => PrintT(<<"EDGE", ToJson(hist')>>)
 ====
